@@ -53,6 +53,7 @@ class EmulatorMismatch(Exception):
 def make_env(classes):
     env = c01.make_env(classes)
     env['str'] = str
+    env['bool'] = bool
     return env
 
 
@@ -284,7 +285,7 @@ def check_case(ctx, case):
     ctx.case(key=[text, sorted(params.items()), page, data], nontrivial=nt, classes=classes, sample=sample)
 
 
-EXTRA_FEATS = {'stripc', 'tostr', 'tcmp', 'tsubin'}
+EXTRA_FEATS = {'stripc', 'tostr', 'tcmp', 'tsubin', 'boolfn'}
 
 
 def uses_bool(q):
